@@ -100,7 +100,13 @@ func diffValue(a, b reflect.Value, path string) string {
 		if t == typToken {
 			x, y := a.Interface().(parser.Token), b.Interface().(parser.Token)
 			if x.Token != y.Token || !strings.EqualFold(x.Literal, y.Literal) || x.Quoted != y.Quoted {
-				return fmt.Sprintf("%s: token %s %q vs %s %q", path, kindName(x.Token), x.Literal, kindName(y.Token), y.Literal)
+				show := func(t parser.Token) string {
+					if t.IsEmpty() {
+						return "(absent)"
+					}
+					return strings.ToUpper(t.Literal)
+				}
+				return fmt.Sprintf("%s: %s vs %s", path, show(x), show(y))
 			}
 			return ""
 		}
